@@ -23,7 +23,7 @@ rm -f tests/seed_demo.rs examples/demo.rs; rmdir examples 2>/dev/null
 git checkout -q -- src
 echo "tests: rc=$rc_tests $passed | demo without change rc=$rc_without | demo with change rc=$rc_with"
 if [ $rc_tests = 0 ] && [ $rc_without = 0 ] && [ $rc_with != 0 ] && echo "$passed" | grep -q "132 passed"; then
-  P=$(echo $p | tr a-z A-Z); d=/verif/seeded/$P-$n; mkdir -p $d
+  P=$(echo $p | tr a-z A-Z); P=${PROP:-$P}; d=/verif/seeded/${OUTID:-$P-$n}; mkdir -p $d
   cp $sd/patch.diff $d/patch.diff; cp $sd/$demo $d/$demo
   python3 - "$sd/meta.json" "$d/meta.json" "$P" "$kind" <<'PY'
 import json,sys
